@@ -82,8 +82,18 @@ def judge_open_files(out, must, may, what):
     return bad
 
 
-def set_table(p, table):
-    p.fds = {fd: FD(target(kind, fd), kind, pos, flags) for fd, (kind, pos, flags) in table.items()}
+FDINFO_EXTRA = {
+    "": b"",
+    "flock": b"lock:\t1: FLOCK  ADVISORY  WRITE 4321 08:01:1234 0 EOF\n",
+    "posix": b"lock:\t1: POSIX  ADVISORY  READ 4321 08:01:1234 0 99\nlock:\t2: POSIX  ADVISORY  WRITE 4321 08:01:1234 100 EOF\n",
+    "eventfd": b"eventfd-count:                0\neventfd-id: 5\n",
+    "inotify": b"inotify wd:1 ino:abc sdev:800001 mask:fce ignored_mask:0 fhandle-bytes:8 fhandle-type:1 f_handle:01020304\n",
+    "blank": b"\n",
+}
+
+
+def set_table(p, table, extra=b""):
+    p.fds = {fd: FD(target(kind, fd), kind, pos, flags, extra) for fd, (kind, pos, flags) in table.items()}
 
 
 def run_case(case, st):
@@ -95,7 +105,7 @@ def run_case(case, st):
     bad = []
     if k == "table":
         table = {int(fd): tuple(v) for fd, v in case[1].items()}
-        set_table(p, table)
+        set_table(p, table, FDINFO_EXTRA[case[2]] if len(case) > 2 else b"")
         must, may = ref_open_files(w, table)
         what = "accmode3" if any((f & 3) == 3 for _, _, f in table.values()) else "plain"
         bad += judge_open_files(outcome(pr.open_files), must, may, what)
@@ -206,6 +216,9 @@ def build_cases(thorough):
     for kind in KINDS:
         for pos in POS:
             cases.append(("table", {"3": [kind, pos, 0o100002]}))
+    for ex in FDINFO_EXTRA:
+        if ex:
+            cases.append(("table", {"3": ["reg", 5, 0o100002], "4": ["litdel", 9, 0o102001]}, ex))
     nmax = 4 if thorough else 3
     kinds = KINDS if thorough else ["reg", "del", "delx", "litdel", "sock", "pipe", "chr", "rel", "dir"]
     for n in range(0, nmax + 1):
